@@ -38,6 +38,9 @@ def gen_world(rng, nprod=None, spaces=None):
                 lines.append("envAppend(LD_LIBRARY_PATH, ${PRODUCT_DIR}/lib)")
             if rng.random() < 0.35:
                 lines.append("envPrepend(%s_PATH, ${PRODUCT_DIR}/share, \";\")" % name.upper())
+            if rng.random() < 0.3:
+                # a custom-delimited list shared by several products
+                lines.append("%s(XLIST, ${PRODUCT_DIR}/x, \";\")" % rng.choice(["envPrepend", "envAppend"]))
             if rng.random() < 0.5:
                 lines.append("envSet(%s_HOME, ${PRODUCT_DIR}/home)" % name.upper())
             if rng.random() < 0.3:
@@ -62,6 +65,20 @@ def gen_world(rng, nprod=None, spaces=None):
             k = rng.randrange(len(lines) + 1)
             lines = lines[:k] + deps + lines[k:]
             prods.setdefault(name, {})[v] = lines
+    if n >= 3 and rng.random() < 0.35:
+        # a version conflict inside one graph: two products require different explicit versions of p1, whose
+        # versions have different dependencies of their own (only for worlds of >= 4 products: p1 needs a p0)
+        lo, a, b = names[0], names[-2], names[-1]
+        vs = sorted(prods[lo])
+        if len(vs) < 2:
+            extra = [v for v in VERSIONS if v not in prods[lo]][0]
+            prods[lo][extra] = ["envPrepend(PATH, ${PRODUCT_DIR}/bin)"]
+            vs = sorted(prods[lo])
+        for v in prods[a]:
+            prods[a][v] = [l for l in prods[a][v] if "(%s" % lo not in l] + ["setupRequired(%s %s)" % (lo, vs[0])]
+        for v in prods[b]:
+            prods[b][v] = [l for l in prods[b][v] if "(%s" % lo not in l and "(%s" % a not in l] + \
+                          ["setupRequired(%s)" % a, "setupRequired(%s %s)" % (lo, vs[1])]
     current = {}
     for name in names:
         if rng.random() < 0.9:
